@@ -362,7 +362,7 @@ func c09variant(enc string, n int, kind int, rng *prng) string {
 		}
 	case 2: // 16 digits, zero padded, mixed case
 		for i := range words {
-			w := strings.Repeat("0", 16-len(words[i])) + words[i]
+			w := c09zeros(16-len(words[i])) + words[i]
 			bs := []byte(w)
 			for k := range bs {
 				if rng.chance(0.5) {
@@ -389,7 +389,7 @@ func c09variant(enc string, n int, kind int, rng *prng) string {
 		words = words[:len(words)-1]
 	case 6: // too-large word (17 digits)
 		i := rng.intn(len(words))
-		words[i] = "1" + strings.Repeat("0", 16-len(words[i])) + words[i]
+		words[i] = "1" + c09zeros(16-len(words[i])) + words[i]
 	case 7: // a non-hex byte somewhere
 		i := rng.intn(len(words))
 		junk := []string{"G", "g", "z", " ", "-", "+", "_", "x", ".", "\x00", "\xff", "\xc3\xa9", "/", "@", "`", "\t"}
@@ -420,6 +420,13 @@ func c09variant(enc string, n int, kind int, rng *prng) string {
 }
 
 const c09variants = 13
+
+func c09zeros(k int) string {
+	if k < 0 {
+		k = 0
+	}
+	return strings.Repeat("0", k)
+}
 
 // SetValue(i, bits[i]) for every index in order; exported as ONE op when none of the calls panicked
 func c09build(r *c09rec, bits []bool) {
@@ -647,18 +654,47 @@ func c09orderCase(pus []uint64, types []string, class string) {
 		keys[i] = c09key(acts[i])
 	}
 	less := make([]int, 0, n*n)
+	lt := make([][]bool, n)
 	for i := 0; i < n; i++ {
+		lt[i] = make([]bool, n)
 		for j := 0; j < n; j++ {
-			if acts.Less(i, j) {
+			lt[i][j] = acts.Less(i, j)
+			if lt[i][j] {
 				less = append(less, 1)
 			} else {
 				less = append(less, 0)
 			}
-			// oracle: Less is the strict lexicographic order on (planning unit, type)
-			want := pus[i] < pus[j] || (pus[i] == pus[j] && types[i] < types[j])
-			if acts.Less(i, j) != want {
-				emit(J{"kind": "oracle", "what": "Less is not the lexicographic order on (planning unit, type)",
-					"a": keys[i], "b": keys[j], "got": acts.Less(i, j), "class": class})
+		}
+	}
+	// oracle (independent of WHICH order it is): Less is a strict total order on (planning unit, type) keys --
+	// irreflexive, exactly one direction between different keys, neither between equal keys, transitive.
+	// That is what makes the sorted sequence a function of the key set.
+	sameKey := func(i, j int) bool { return pus[i] == pus[j] && types[i] == types[j] }
+	bad := ""
+	for i := 0; i < n && bad == ""; i++ {
+		for j := 0; j < n && bad == ""; j++ {
+			switch {
+			case sameKey(i, j) && (lt[i][j] || lt[j][i]):
+				bad = "Less holds between two actions with the same (planning unit, type)"
+			case !sameKey(i, j) && lt[i][j] == lt[j][i]:
+				bad = "Less does not order two actions with different (planning unit, type) keys (not a total order)"
+			}
+			if bad != "" {
+				emit(J{"kind": "oracle", "what": bad, "a": keys[i], "b": keys[j], "less_ab": lt[i][j], "less_ba": lt[j][i], "class": class})
+			}
+		}
+	}
+	for i := 0; i < n && bad == ""; i++ {
+		for j := 0; j < n && bad == ""; j++ {
+			if !lt[i][j] {
+				continue
+			}
+			for k := 0; k < n; k++ {
+				if lt[j][k] && !lt[i][k] {
+					bad = "Less is not transitive"
+					emit(J{"kind": "oracle", "what": bad, "a": keys[i], "b": keys[j], "c": keys[k], "class": class})
+					break
+				}
 			}
 		}
 	}
@@ -858,6 +894,18 @@ func c09portability(tier string, rng *prng) {
 			}
 			seen[k] = true
 		}
+		// the order in which the actions come out of the Go maps before Sort(): exported so that the model's sort
+		// runs on the REAL gathering orders, and counted to show that they do differ between constructions
+		gatheredOrders := map[string]bool{}
+		for k := 0; k < nInst; k++ {
+			g := []interface{}{}
+			for _, a := range src.VerifGatherActions() {
+				g = append(g, c09key(a))
+			}
+			gatheredOrders[fmt.Sprint(g)] = true
+			instKeys = append(instKeys, g)
+		}
+		c09stats["distinct_gathering_orders_"+name] = len(gatheredOrders)
 		emit(J{"kind": "case", "t": "inst", "dataset": name, "n": n, "instances": instKeys})
 		c09stats["instances_"+name] = nInst + 1
 		c09stats["actions_"+name] = n
@@ -866,10 +914,7 @@ func c09portability(tier string, rng *prng) {
 		var sets []uint64
 		budget := uint64(400)
 		if tier == "thorough" {
-			budget = 1 << 13
-			if name != "ValidModel" {
-				budget = 4096
-			}
+			budget = 1 << 15 // all 2^13 sets of ValidModel.csv and all 2^15 of TestingModel.csv
 		}
 		if total <= budget {
 			for s := uint64(0); s < total; s++ {
@@ -960,7 +1005,7 @@ func runC09(args []string) {
 		for n := 1; n <= 200; n++ {
 			sizes = append(sizes, n)
 		}
-		walks, steps = 1500, 40
+		walks, steps = 3000, 40
 	}
 	for _, n := range sizes {
 		c09structured(n, rng, canon)
